@@ -48,7 +48,7 @@ CHECKS = {
             "C14_signal_iff, C14_completing_press, C14_tracker_is_keys_down, C14_never_when_empty(_history); on histories of every event kind (keys, axes of all types, SYN, MIDI input; Props/C14mixed.lean): C14_all_signal_iff (signal iff a key press completing the sequence; axis / SYN / MIDI-input events never raise it), C14_all_tracker, C14_all_history, C14_all_never_when_empty.",
             "The blocking send on the signal channel is not modelled."),
     "C15": ("Lean 4 proof over transition-system models of the fan-out and the relay (all interleavings of the model) + source fact regenerated from fan.go + scripted and free-running runs of the real goroutines",
-            "C15_fan_exactly_once (for every schedule each connected output has been given exactly the block of the dispatch log since its spawn, in order — HidiProofs/FanLemmas.lean), C15_fan_quiescent, C15_ids_distinct, C15_relay_order / C15_relay_complete (per emitter: exactly once, in emission order), C15_source_facts (send selected against a per-output leaving signal), C15_despawn_blocks_unguarded (witness of the repaired deadlock), C15_despawn_completes_on_wedge, C15_despawn_completes (progress: from every reachable state of the guarded fan-out with a removal pending, at most 2*|outputs|+5 enabled steps of the dispatcher, the remover and consumers that have not been told to leave return the call; never a step of the removed consumer — HidiProofs/FanLive.lean).",
+            "C15_fan_exactly_once (for every schedule each connected output has been given exactly the block of the dispatch log since its spawn, in order — HidiProofs/FanLemmas.lean), C15_fan_quiescent, C15_ids_distinct, C15_relay_order / C15_relay_complete (per emitter: exactly once, in emission order), C15_input_relay_order (input direction: the consumer has received a prefix of the arrival sequence, for every schedule), C15_source_facts (send selected against a per-output leaving signal), C15_despawn_blocks_unguarded (witness of the repaired deadlock), C15_despawn_completes_on_wedge, C15_despawn_completes (progress: from every reachable state of the guarded fan-out with a removal pending, at most 2*|outputs|+5 enabled steps of the dispatcher, the remover and consumers that have not been told to leave return the call; never a step of the removed consumer — HidiProofs/FanLive.lean).",
             "Partial by nature: goroutine scheduling belongs to the Go runtime; conformance of the real goroutines to the model is sampled (scripts + stress runs with watchdogs), the theorems cover every interleaving of the model only."),
     "C16": ("Lean 4 source facts + lock-discipline model; race-detector runs of the real goroutines (1-8 devices concurrently, LED loop against a fake OpenRGB server)",
             "C16_table_disciplined (the access table regenerated from package device — every *Device field access of the three goroutines with the mutexes held — has a common mutex for every conflicting pair), C16_no_race (generic lockset theorem: no schedule enables two conflicting accesses), C16_writes_locked, C16_table_complete, C16_no_shared_package_state, C16_independent, C16_source_facts; life-cycle transition system of the three goroutines and the two mutexes (Hidi/Life.lean): C16_life_mutual_exclusion (every schedule, single lock order), C16_life_wait_means_finished, C16_life_terminates (from every reachable state with the input ended at most 973 enabled steps of the goroutines themselves finish all three), C16_life_no_deadlock, C16_life_source_facts (regenerated: every waiting loop watches ctx.Done(), range -> cancel -> clean-up -> wg.Wait, lock nesting table); the decision on the implementation: every ProcessEvents returns promptly, no goroutine is left, the race detector is silent, each device's output equals its output when run alone.",
